@@ -106,6 +106,10 @@ class SchedulePattern(AccessPattern):
         #     (0, 1, 2, 3, ..., dim-1, dim, dim+1, ..., num_dims - 1)
         # --> (1, 2, 3, ..., dim-1, 0, dim, dim+1, ..., num_dims - 1)
 
+        # rotating no dimensions (or one) leaves everything in place
+        if dim <= 1:
+            return self
+
         new_bounds = self.bounds[1:dim] + self.bounds[:1] + self.bounds[dim:]
         new_a = self.pattern.A[:, [*range(1, dim), 0, *range(dim, self.num_dims)]]
         new_pattern = AffineTransform(new_a, self.pattern.b)
